@@ -313,6 +313,22 @@ func (tb *TermBank) Bin(op Op, x, y *Term) *Term {
 		if y.IsConst() && y.val.Cmp(bigOne) == 0 {
 			return x
 		}
+		// division / remainder / multiplication by a power of two are shifts and masks
+		if k := pow2(y); k > 0 {
+			return tb.Bin(OpLShr, x, tb.BVu(uint64(k), w))
+		}
+	case OpURem:
+		if k := pow2(y); k >= 0 {
+			return tb.Bin(OpAnd, x, tb.BV(new(big.Int).Sub(y.val, bigOne), w))
+		}
+	}
+	if op == OpMul {
+		if k := pow2(y); k > 0 {
+			return tb.Bin(OpShl, x, tb.BVu(uint64(k), w))
+		}
+		if k := pow2(x); k > 0 {
+			return tb.Bin(OpShl, y, tb.BVu(uint64(k), w))
+		}
 	}
 	return tb.mk(op, w, x, y)
 }
